@@ -480,6 +480,82 @@ def growth(rng, kind, n, start=None, removes=0.1, shared=None):
 
 
 # insertion indices around the fill thresholds of tables of 1, 8, 64, 256, 512, 2048, 4096 buckets
+CV = ("i2s", "d2i", "i2l", "i2d", "s2s")
+
+
+def cv_line(rng, var=None):
+    """one `cv` line: a source map (pairs, set in the given order, keys repeated now and then) and the converting constructor.
+    i2s / i2d: int keys whose decimal text sorts differently from their value (9, 10, 100, negatives); d2i: quarters q/4 that
+    truncate to the same int; i2l / s2s: same key type (order kept)."""
+    var = var or rng.choice(CV)
+    n = rng.choice([0, 1, 2, 3, 3, 4, 5, 6, 8, 12])
+    if var in ("i2s", "i2d"):
+        c = rng.randrange(4)
+        if c == 0:
+            keys = [9, 10, 100, 11, 2, 20, 200, 1, 0, 99, 1000, 19, 101]
+        elif c == 1:
+            keys = [-1, -10, -9, 0, 5, 50, -5, -50, 49, -100, 7]
+        elif c == 2:
+            keys = [rng.randrange(-2 ** 31, 2 ** 31) for _ in range(8)] + [-2147483648, 2147483647]
+        else:
+            keys = list(range(rng.randrange(0, 120), rng.randrange(120, 140)))
+        ks = [str(rng.choice(keys)) for _ in range(n)]
+    elif var == "d2i":
+        lo = rng.choice([-12, -40, 0, 4])
+        ks = [str(rng.randrange(lo, lo + rng.choice([8, 16, 60]))) for _ in range(n)]
+        if rng.random() < 0.1:
+            ks = [str(rng.randrange(-2 ** 20, 2 ** 20)) for _ in range(n)]
+    elif var == "i2l":
+        ks = [str(rng.choice(int_pool(rng)[1])) for _ in range(n)]
+    else:
+        pool = str_pool(rng)[1]
+        ks = [hexs(rng.choice(pool)) for _ in range(n)]
+    toks = []
+    for k in ks:
+        toks += [k, str(rng.choice([0, 1, 7, -3, rng.randrange(-1000, 1000)]))]
+    r = rng.random()
+    if r < 0.03 and toks:
+        toks = toks[:-1]            # malformed: a key without a value
+    elif r < 0.05:
+        var = rng.choice(["s2i", "I2S", "x"])   # malformed: unknown variant
+    return " ".join(["cv", var] + toks)
+
+
+def cv_cases(rng, n):
+    out = [["cv i2s 9 90 10 100 100 1000", "cv d2i 5 1 7 2 14 3", "cv i2d 9 90 10 100 100 1000", "cv i2l 3 1 -2 5", "cv s2s 62 2 61 1 - 7",
+            "cv i2s", "cv d2i", "cv d2i -5 1 -7 2 -1 4 1 5 3 6"]]
+    for _ in range(n):
+        out.append([cv_line(rng) for _ in range(rng.choice([1, 3, 6]))])
+    return out
+
+
+def sim_cv(t):
+    """python reference of a `cv` line: dict built in ascending source-key order with the converted keys"""
+    if len(t) < 2 or t[1] not in CV or (len(t) - 2) % 2:
+        return "bad-op"
+    var, args = t[1], t[2:]
+    src = {}
+    for i in range(0, len(args), 2):
+        src[core.unhex(args[i]) if var == "s2s" else int(args[i])] = int(args[i + 1])
+    if var in ("i2s", "i2d"):
+        fk = lambda k: str(k).encode()
+    elif var == "d2i":
+        fk = lambda q: abs(q) // 4 * (1 if q >= 0 else -1)      # (int)(q / 4.0): toward zero
+    else:
+        fk = lambda k: k
+    show = hexs if var in ("i2s", "i2d", "s2s") else str
+    order = sorted(src)
+    conv = {}
+    for k in order:
+        conv[fk(k)] = src[k]
+    parts = [str(len(conv))] + ["%s:%d" % (show(k), conv[k]) for k in sorted(conv)] + ["|"]
+    for k in order:
+        parts += ["1", str(conv[fk(k)])]
+    parts += ["|", "1", "|"]
+    parts += ["1", "0", str(len(conv) - 1)] if order else ["-"]
+    return " ".join(parts)
+
+
 GROWTH_POINTS = frozenset([0, 1, 2, 6, 7, 8, 55, 56, 57, 58, 223, 224, 225, 226, 447, 448, 449, 450,
                            1791, 1792, 1793, 1794, 3584, 3585, 3586])
 POOL_STATS = {}
@@ -528,6 +604,9 @@ def gen(rng, tier):
             c = history(rng, kind, rng.choice([12, 25, 50]))
             c += ["%s walk %d" % (kind, s) for s in range(4)]
             cases.append(c)
+    # 7. converting constructors Map<K,T>(const Map<K2,T2>&) / Dic(const Map<..>&) / Dic(const Dic<..>&): key conversions that
+    #    reorder (int -> decimal text) or merge (double -> int) keys, and same-key-type conversions
+    cases += cv_cases(rng, 150 if q else 3000)
     cases.append(growth(rng, "hi", 1900, None, removes=0.02))
     cases.append(growth(rng, "ss", 1850, 256, removes=0.0))
     if not q:
@@ -545,6 +624,8 @@ OBS = ("walk", "raw", "pot", "find", "has", "get", "cidx", "dump", "keys", "eq",
 
 def nontrivial(case):
     ops = [l.split()[1] for l in case if len(l.split()) > 1]
+    if any(l.startswith("cv ") and len(l.split()) >= 6 for l in case):
+        return True
     return any(o in MUT for o in ops) and any(o in OBS for o in ops)
 
 
@@ -717,6 +798,9 @@ def simulate(case):
     out = []
     for l in case:
         t = l.split()
+        if t and t[0] == "cv":
+            out.append(sim_cv(t))
+            continue
         kind, op = t[0], t[1]
         sl = st[kind]
         s = int(t[2]) % 4
